@@ -8,6 +8,7 @@
 From Coq Require Import Reals List Bool String.
 From Verif Require Import Base.Num Base.Vec Base.VecR C11.Model C11.Proofs.
 From Verif Require Import C11.Syntax C11.Interp Gen.Solvers C11.GenProofs.
+From Verif Require Import C11.SyntaxL C11.InterpL Gen.SolversL C11.SweepProofs.
 Import ListNotations.
 Local Open Scope R_scope.
 Notation length := List.length.
@@ -592,6 +593,51 @@ Example gen_adupdates_two_operators_shared_temporary :
   /\ proj_state (run_outer stepsize o0 o1 junk (fun _ => "tmp#0") adupdates_simple_outer (heap_shared x d0 d1 t))
      = Some (Some xf, nth_error ds 0, nth_error ds 1, []).
 Proof. exact gen_adup2_shared. Qed.
+Local Close Scope string_scope.
+
+(* =========== 5. list solvers regenerated WITH their preambles (Gen/SolversL.v) ===========
+   [lrun I rkey nops nkeys pre body niter s0] (C11/InterpL.v): objects have structured identities;
+   a list comprehension that creates objects yields nops NEW objects OList name j, the dict
+   comprehension one NEW object ODict name k per distinct range; rkey j is the range class of
+   operator j.  [s_init x]: the caller passes x.  Every number of operators, every assignment of
+   operators to temporaries, every niter. *)
+Local Open Scope string_scope.
+
+(* the two regenerated adupdates programs, preambles included: niter callbacks, and the k-th
+   callback of adupdates is what adupdates_simple run with niter = k+1 leaves in the caller's x *)
+Theorem gen_adupdates_equals_simple_all_n :
+  forall (stepsize : R) (junk : string -> list R) (dflt : @adop R) (ops : list (@adop R)),
+  (forall j, (j < length ops)%nat -> ad_inner_v (nth j ops dflt) = None) ->
+  forall (nkeys niter k : nat) (x : list R),
+  (forall j, (j < length ops)%nat -> (ad_key (nth j ops dflt) < nkeys)%nat) -> (k < niter)%nat ->
+  let I := adI stepsize junk dflt ops in let rkey := adkey dflt ops in
+  exists so sr,
+    lrun I rkey (length ops) nkeys adupdates_lpre adupdates_lbody niter (s_init x) = Some so
+    /\ lrun I rkey (length ops) nkeys adupdates_simple_lpre adupdates_simple_lbody (S k) (s_init x) = Some sr
+    /\ length (l_log so) = niter
+    /\ nth_error (l_log so) k = hget (l_heap sr) (OCaller "x").
+Proof. exact gen_adupdates_equiv. Qed.
+Print Assumptions gen_adupdates_equals_simple_all_n.
+
+(* ... and each of them computes the model (log = model trace, caller's x = model iterate) *)
+Theorem gen_adupdates_whole_call_is_model :
+  forall (stepsize : R) (junk : string -> list R) (dflt : @adop R) (ops : list (@adop R)),
+  (forall j, (j < length ops)%nat -> ad_inner_v (nth j ops dflt) = None) ->
+  forall (nkeys niter : nat) (x : list R),
+  (forall j, (j < length ops)%nat -> (ad_key (nth j ops dflt) < nkeys)%nat) ->
+  let I := adI stepsize junk dflt ops in let rkey := adkey dflt ops in
+  (exists s, lrun I rkey (length ops) nkeys adupdates_lpre adupdates_lbody niter (s_init x) = Some s
+     /\ l_log s = ad_opt_trace stepsize ops niter (repeat (junk "tmp_rans") nkeys) x
+     /\ hget (l_heap s) (OCaller "x")
+        = Some (fst (fst (iter niter (ad_opt_step stepsize ops) (x, ad_duals0 ops, repeat (junk "tmp_rans") nkeys)))))
+  /\ (exists s, lrun I rkey (length ops) nkeys adupdates_simple_lpre adupdates_simple_lbody niter (s_init x) = Some s
+     /\ l_log s = [] /\ hget (l_heap s) (OCaller "x") = Some (ad_ref_run stepsize ops niter x)).
+Proof.
+  exact (fun stepsize junk dflt ops Hs nkeys niter x Hk =>
+    conj (gen_adupdates_run stepsize junk dflt ops Hs nkeys niter x Hk)
+         (gen_adupdates_simple_run stepsize junk dflt ops Hs nkeys niter x)).
+Qed.
+Print Assumptions gen_adupdates_whole_call_is_model.
 Local Close Scope string_scope.
 
 (* ------------------------------------------------------------ non-vacuity *)
